@@ -69,7 +69,7 @@ ProdTerms(net, a) == FoldSet(LAMBDA t, acc : acc * Term(net, t, a), 1, Leaves(ne
 (* DOMAIN fix held at fix[ix]; summed over every other index              *)
 ValueAt(net, o, fix) ==
     LET bound == DOMAIN o \cup DOMAIN fix
-        free  == Ixs(net) \ bound
+        free  == {ix \in Ixs(net) : \E t \in Leaves(net) : ix \in OnT(net, t)} \ bound   \* indices on no tensor are ignored
     IN  FoldSet(LAMBDA a, acc : acc + ProdTerms(net, a @@ o @@ fix), 0,
                 Assignments(net, free))
 
